@@ -365,8 +365,397 @@ pub fn gen_cfg(prop: &str, seed: u64) -> RunCfg {
             }
             base_cfg(prop, "record", seed, &mut g, vec![spec], ops)
         }
+        "C04" => {
+            g.size_profile = 2;
+            let pp = phys_pct_for(&mut g.rng);
+            let spec = match g.rng.weighted(&[30, 35, 35]) {
+                0 => g.leaf(pp),
+                1 => any_stack(&mut g, pp),
+                _ => overlay_stack(&mut g, pp, 1, 3),
+            };
+            let mut world = World { m: vec![spec.view()], w: Default::default() };
+            g.avoid_known = spec.has_ovl();
+            let base: [u32; 19] = [1, 4, 0, 0, 1, 10, 4, 0, 3, 2, 2, 1, 1, 14, 12, 6, 6, 2, 2];
+            let w = swarm_weights(&mut g.rng, &base);
+            let n = g.rng.range(3, 16);
+            let mut ops = vec![];
+            for _ in 0..n {
+                if g.rng.pct(22) {
+                    ops.extend(flush_block(&mut g, &mut world, spec.has_phys()));
+                } else {
+                    ops.extend(gen_history(&mut g, &mut world, 1, &w));
+                }
+            }
+            let mut cfg = base_cfg(prop, "bytes", seed, &mut g, vec![spec], ops);
+            if g.rng.pct(50) {
+                cfg.perturb = [*g.rng.pick(&[0u32, 20, 50]), *g.rng.pick(&[0u32, 20, 50]), *g.rng.pick(&[0u32, 10, 30])];
+            }
+            cfg
+        }
+        "C14" => {
+            g.size_profile = 1;
+            let pp = phys_pct_for(&mut g.rng);
+            let spec = match g.rng.weighted(&[40, 10, 25, 25]) {
+                0 => g.leaf(pp),
+                1 => Spec::Emb,
+                2 => any_stack(&mut g, pp),
+                _ => overlay_stack(&mut g, pp, 1, 3),
+            };
+            let ops = handle_script(&mut g, &spec);
+            let mut cfg = base_cfg(prop, "handles", seed, &mut g, vec![spec], ops);
+            if g.rng.pct(40) {
+                cfg.perturb = [*g.rng.pick(&[0u32, 30]), *g.rng.pick(&[0u32, 30]), *g.rng.pick(&[0u32, 15])];
+            }
+            cfg
+        }
+        "C19" => {
+            let pp = phys_pct_for(&mut g.rng);
+            let spec = match g.rng.weighted(&[45, 30, 25]) {
+                0 => g.leaf(pp),
+                1 => Spec::Alt { inner: Box::new(g.leaf(pp)), p: g.alt_p(true) },
+                _ => {
+                    let n = g.rng.range(1, 3);
+                    Spec::Ovl { layers: (0..n).map(|_| g.leaf(pp)).collect() }
+                }
+            };
+            let all_mem = !spec.has_phys();
+            let mut world = World { m: vec![spec.view()], w: Default::default() };
+            g.avoid_known = spec.has_ovl();
+            let grow: [u32; 19] = [0, 1, 0, 0, 0, 1, 0, 0, 8, 2, 1, 1, 0, 12, 8, 1, 1, 0, 0];
+            let n = g.rng.range(4, 24);
+            let mut ops = gen_history(&mut g, &mut world, 3, &grow);
+            for _ in 0..n {
+                if g.rng.pct(55) {
+                    let t = g.target_w(&world.m[0], &[(Tc::File, 55), (Tc::NonRootDir, 30), (Tc::AbsentInDir, 15)]);
+                    let f = *g.rng.pick(&[TField::Created, TField::Modified, TField::Accessed]);
+                    let secs: i64 = if all_mem && g.rng.pct(15) {
+                        *g.rng.pick(&[-30_000_000_000i64, 30_000_000_000, 253_402_300_799])
+                    } else {
+                        *g.rng.pick(&[0i64, 1, 86_400, 1_000_000_000, 2_000_000_000, 2_147_483_647, -1, -86_400, -2_000_000_000, 1_234_567_890])
+                    };
+                    let nanos = *g.rng.pick(&[0u32, 0, 1, 500_000_000, 999_999_999, 123_456_789]);
+                    ops.push(Op::SetTime(P::new(&t), f, secs, nanos));
+                } else {
+                    ops.extend(gen_history(&mut g, &mut world, 1, &grow));
+                }
+            }
+            base_cfg(prop, "time", seed, &mut g, vec![spec], ops)
+        }
+        "C20" => {
+            let pp = if g.rng.pct(25) { 50 } else { 0 };
+            let mut spec = match g.rng.weighted(&[25, 25, 40, 10]) {
+                0 => g.leaf(pp),
+                1 => Spec::Alt { inner: Box::new(g.leaf(pp)), p: g.alt_p(true) },
+                2 => {
+                    let n = g.rng.range(2, 3);
+                    Spec::Ovl { layers: (0..n).map(|_| g.leaf(pp)).collect() }
+                }
+                _ => {
+                    let n = g.rng.range(1, 2);
+                    let o = Spec::Ovl { layers: (0..n).map(|_| g.leaf(pp)).collect() };
+                    Spec::Alt { inner: Box::new(o), p: g.alt_p(true) }
+                }
+            };
+            if g.rng.pct(80) {
+                let view = g.gen_view(7);
+                g.populate(&mut spec, &view, false);
+            }
+            let mut world = World { m: vec![spec.view()], w: Default::default() };
+            g.avoid_known = spec.has_ovl();
+            // composite- and adapter-heavy mix
+            let base: [u32; 19] = [5, 3, 2, 2, 5, 4, 5, 6, 4, 8, 3, 3, 8, 5, 5, 7, 7, 7, 7];
+            let w = swarm_weights(&mut g.rng, &base);
+            let n = g.rng.range(2, 9);
+            let ops = gen_history(&mut g, &mut world, n, &w);
+            let mut cfg = base_cfg(prop, "fault", seed, &mut g, vec![spec.clone()], ops);
+            // which wrapped filesystems fail: a non-empty subset of the stack's nodes
+            let nn = spec.node_count();
+            let mut mask = 0u64;
+            for id in 0..nn {
+                if g.rng.pct(60) {
+                    mask |= 1 << id;
+                }
+            }
+            if mask == 0 {
+                mask = 1 << g.rng.below(nn);
+            }
+            cfg.extra.insert("fault_nodes".into(), mask.to_string());
+            cfg.extra.insert("sticky".into(), if g.rng.pct(30) { "1" } else { "0" }.into());
+            cfg
+        }
+        "C13" => {
+            g.size_profile = 1;
+            g.domain = Domain::Unrestricted;
+            let pp = phys_pct_for(&mut g.rng);
+            let mut spec = match g.rng.weighted(&[25, 10, 30, 35]) {
+                0 => {
+                    let pc = if g.rng.pct(50) { 100 } else { 0 };
+                    g.leaf(pc)
+                }
+                1 => Spec::Emb,
+                2 => any_stack(&mut g, pp),
+                _ => overlay_stack(&mut g, pp, 1, 4),
+            };
+            if g.rng.pct(15) {
+                // type-conflicting overlay layers: each layer gets its own independent view
+                if let Spec::Ovl { layers } = &mut spec {
+                    for l in layers.iter_mut() {
+                        strip_pre(l);
+                        let view = g.gen_view(6);
+                        g.populate(l, &view, false);
+                    }
+                }
+            }
+            let phys_top = matches!(spec, Spec::Phys { .. });
+            let mut world = World { m: vec![spec.view()], w: Default::default() };
+            let n = g.rng.range(4, 30);
+            let w = swarm_weights(&mut g.rng, &W_DEFAULT);
+            let mut ops: Vec<Op> = vec![];
+            let emb_paths = ["/a.txt", "/ab", "/empty", "/sub", "/sub/n.txt", "/sub/deep/bin.dat", "/sub/n", "", "/a", "/sub/deep", "/ü.txt", "/a.b.c", "/nope"];
+            for _ in 0..n {
+                match g.rng.weighted(&[50, 22, 10, if phys_top { 10 } else { 0 }, 8]) {
+                    0 => {
+                        let mut batch = gen_history(&mut g, &mut world, 1, &w);
+                        if let Some(mut op) = batch.pop() {
+                            if matches!(spec, Spec::Emb) {
+                                let t = emb_paths[g.rng.below(emb_paths.len())].to_string();
+                                op = crate::mon_twin::map_op(&op, &|p: &P| P { fs: p.fs, s: t.clone() }, 0);
+                            }
+                            if g.rng.pct(20) {
+                                // arbitrary (not equivalence-preserving) join strings
+                                let names = g.names.clone();
+                                let r = std::cell::RefCell::new(&mut g.rng);
+                                op = crate::mon_twin::map_op(&op, &|p: &P| P { fs: p.fs, s: wild_join(&p.s, &mut r.borrow_mut(), &names) }, 0);
+                            }
+                            if !excluded_everywhere(&op) {
+                                ops.push(op);
+                            }
+                        }
+                    }
+                    1 => {
+                        // handle calls; slots 0,1 readers, 2,3 writers; handles stay open across steps
+                        let t = if matches!(spec, Spec::Emb) {
+                            emb_paths[g.rng.below(emb_paths.len())].to_string()
+                        } else {
+                            g.target_w(&world.m[0], &[(Tc::File, 60), (Tc::Dir, 15), (Tc::AbsentInDir, 15), (Tc::UnderFile, 10)])
+                        };
+                        let len = world.m[0].file(&t).map(|b| b.len() as i64).unwrap_or(5);
+                        match g.rng.below(9) {
+                            0 | 1 => ops.push(Op::OpenRead(P::new(&t), g.rng.below(2) as u8)),
+                            2 => {
+                                if !t.is_empty() {
+                                    ops.push(Op::OpenWrite { p: P::new(&t), append: g.rng.pct(40), slot: 2 + g.rng.below(2) as u8 })
+                                }
+                            }
+                            3 | 4 => ops.push(Op::HRead(g.rng.below(2) as u8, *g.rng.pick(&[0usize, 1, 2, 7, 8192]))),
+                            5 | 6 => {
+                                let w = *g.rng.pick(&[Whence::Start, Whence::Current, Whence::End]);
+                                let off = *g.rng.pick(&[0, 1, -1, len, -len, len + 1, -len - 1, i64::MIN, i64::MAX, i64::MIN + 1, -1 - len, 1i64 << 62]);
+                                ops.push(Op::HSeek(g.rng.below(2) as u8, w, off));
+                            }
+                            7 => {
+                                // writers: bounded targets (a write past the end zero-fills the gap)
+                                let slot = 2 + g.rng.below(2) as u8;
+                                if g.rng.pct(50) {
+                                    let w = *g.rng.pick(&[Whence::Start, Whence::Current, Whence::End]);
+                                    let off = *g.rng.pick(&[0, 1, -1, len, -len - 1, 1000, -1000, 100_000]);
+                                    ops.push(Op::HSeek(slot, w, if w == Whence::Start { off.abs() } else { off }));
+                                } else {
+                                    let pl = g.payload();
+                                    ops.push(Op::HWrite(slot, pl));
+                                }
+                            }
+                            _ => {
+                                let slot = g.rng.below(4) as u8;
+                                ops.push(if g.rng.pct(50) { Op::HFlush(slot) } else { Op::HDrop(slot) });
+                            }
+                        }
+                    }
+                    2 => {
+                        let t = g.target_w(&world.m[0], &[(Tc::File, 40), (Tc::Dir, 30), (Tc::AbsentInDir, 20), (Tc::UnderFile, 10)]);
+                        let f = *g.rng.pick(&[TField::Created, TField::Modified, TField::Accessed]);
+                        let secs = *g.rng.pick(&[0i64, -1, 1, 4_000_000_000, -4_000_000_000, 100_000_000_000, -60_000_000_000]);
+                        ops.push(Op::SetTime(P::new(&t), f, secs, *g.rng.pick(&[0u32, 999_999_999])));
+                    }
+                    3 => {
+                        let t = g.target_w(&world.m[0], &[(Tc::Dir, 40), (Tc::AbsentInDir, 40), (Tc::File, 20)]);
+                        ops.push(match g.rng.below(3) {
+                            0 => Op::EnvNonUtf8(P::new(&t)),
+                            1 => Op::EnvDanglingSymlink(P::new(&t)),
+                            _ => Op::EnvRemoveBehind(P::new(&t)),
+                        });
+                    }
+                    _ => {
+                        // a composite right after: faults and hostile content meet recursion
+                        let t = g.target_w(&world.m[0], &[(Tc::Dir, 70), (Tc::AbsentInDir, 30)]);
+                        ops.push(match g.rng.below(3) {
+                            0 => Op::WalkDir(P::new(&t)),
+                            1 => Op::ReadDir(P::new(&t)),
+                            _ => Op::CreateDir(P::new(&t)),
+                        });
+                    }
+                }
+            }
+            let nn = spec.node_count();
+            let mut cfg = base_cfg(prop, "nopanic", seed, &mut g, vec![spec], ops);
+            if g.rng.pct(40) {
+                cfg.perturb = [*g.rng.pick(&[0u32, 30]), *g.rng.pick(&[0u32, 30]), *g.rng.pick(&[0u32, 15])];
+            }
+            if g.rng.pct(50) && !cfg.ops.is_empty() {
+                let kinds = ["Other", "PermissionDenied", "StorageFull", "TimedOut", "InvalidData"];
+                cfg.fault = Some(FaultPlan {
+                    op_index: g.rng.below(cfg.ops.len()),
+                    k: g.rng.range(1, 12) as u64,
+                    sticky: g.rng.pct(40),
+                    kind: kinds[g.rng.below(kinds.len())].into(),
+                    nodes: if g.rng.pct(50) { u64::MAX } else { 1u64 << g.rng.below(nn) },
+                });
+            }
+            cfg
+        }
         _ => panic!("no generator for {}", prop),
     }
+}
+
+/// arbitrary join argument derived from a path: not equivalence-preserving
+pub fn wild_join(q: &str, rng: &mut Rng, names: &[String]) -> String {
+    let nm = names[rng.below(names.len())].clone();
+    match rng.below(12) {
+        0 => format!("{}/", q),
+        1 => format!("{}/..", q),
+        2 => format!("{}/../..", q),
+        3 => format!("..{}", q),
+        4 => format!("{}//{}", q, nm),
+        5 => format!("{}/./{}/.", q, nm),
+        6 => "../../../..".into(),
+        7 => format!("/{}/../../{}", nm, nm),
+        8 => format!("{}/{}", q, "x".repeat(300)),
+        9 => "/".into(),
+        10 => format!("{}/\u{1}{}", q, nm),
+        _ => format!("{}{}", q, "/ü/../日本/.."),
+    }
+}
+
+/// write through a handle that stays open: every flush must make the data visible to a fresh reader
+pub fn flush_block(g: &mut Gen, world: &mut World, has_phys: bool) -> Vec<Op> {
+    let m = &world.m[0];
+    let append = g.rng.pct(35);
+    let t = if append {
+        match g.target(m, Tc::File) {
+            Some(t) => t,
+            None => return vec![],
+        }
+    } else {
+        g.target_w(m, &[(Tc::AbsentInDir, 60), (Tc::File, 40)])
+    };
+    let mut ops = vec![Op::OpenWrite { p: P::new(&t), append, slot: 0 }];
+    let mut probe = world.clone();
+    if !matches!(probe.apply(&ops[0]), Want::Ok(_)) {
+        return vec![];
+    }
+    let mut len: i64 = if append { m.file(&t).map(|b| b.len() as i64).unwrap_or(0) } else { 0 };
+    for _ in 0..g.rng.range(1, 3) {
+        // seeks on append handles only where every layer is in-memory (O_APPEND differs by design)
+        if g.rng.pct(25) && (!append || !has_phys) && !append {
+            let pos = g.rng.range(0, (len + 4) as usize) as i64;
+            ops.push(Op::HSeek(0, Whence::Start, pos));
+            len = len.max(pos);
+        }
+        let pl = g.payload();
+        len += pl.len as i64;
+        ops.push(Op::HWrite(0, pl));
+        if g.rng.pct(70) {
+            ops.push(Op::HFlush(0));
+            let b = *g.rng.pick(&[1usize, 2, 3, 7, 512, 8191, 8192, 8193, 65536]);
+            ops.push(Op::ReadFile(P::new(&t), b));
+            ops.push(Op::Metadata(P::new(&t)));
+        }
+    }
+    ops.push(Op::HDrop(0));
+    let b = *g.rng.pick(&[1usize, 7, 8192, 65536]);
+    ops.push(Op::ReadFile(P::new(&t), b));
+    for op in &ops {
+        world.apply(op);
+    }
+    ops
+}
+
+/// C14: files, then scripts of read/seek/write/flush on handles
+pub fn handle_script(g: &mut Gen, spec: &Spec) -> Vec<Op> {
+    let mut ops = vec![];
+    let emb = matches!(spec, Spec::Emb);
+    let all_mem = !spec.has_phys();
+    let mut files: Vec<(String, i64)> = vec![];
+    if emb {
+        files = vec![("/a.txt".into(), 5), ("/ab".into(), 1), ("/empty".into(), 0), ("/sub/n.txt".into(), 6), ("/sub/deep/bin.dat".into(), 11), ("/ü.txt".into(), 8)];
+    } else {
+        for _ in 0..g.rng.range(1, 3) {
+            let name = g.name();
+            let p = format!("/{}", name);
+            if files.iter().any(|f| f.0 == p) {
+                continue;
+            }
+            let pl = g.payload();
+            files.push((p.clone(), pl.len as i64));
+            ops.push(Op::Write { p: P::new(&p), append: false, script: vec![WStep::Write(pl)] });
+        }
+    }
+    let offsets = |g: &mut Gen, len: i64| -> i64 { *g.rng.pick(&[0, 0, 1, -1, 2, -2, len, len + 1, len - 1, -len, -len - 1, len / 2, -(len / 2), 5, 100, 70_000, -70_000, 1i64 << 40, -(1i64 << 40)]) };
+    for _ in 0..g.rng.range(1, 4) {
+        let (p, flen) = files[g.rng.below(files.len())].clone();
+        if emb || g.rng.pct(60) {
+            // reader script
+            ops.push(Op::OpenRead(P::new(&p), 1));
+            for _ in 0..g.rng.range(2, 10) {
+                if g.rng.pct(55) {
+                    ops.push(Op::HRead(1, *g.rng.pick(&[0usize, 1, 1, 2, 3, 7, 64, 4096, 8192, 70_000])));
+                } else {
+                    let w = *g.rng.pick(&[Whence::Start, Whence::Current, Whence::End]);
+                    let mut off = offsets(g, flen);
+                    if w == Whence::Start {
+                        off = off.abs();
+                    }
+                    ops.push(Op::HSeek(1, w, off));
+                }
+            }
+            ops.push(Op::HDrop(1));
+        } else {
+            let append = g.rng.pct(40);
+            ops.push(Op::OpenWrite { p: P::new(&p), append, slot: 2 });
+            let mut cur_len = if append { flen } else { 0 };
+            for _ in 0..g.rng.range(1, 8) {
+                match g.rng.weighted(&[50, 30, 20]) {
+                    0 => {
+                        // zero-length writes are not generated: after a seek past the end std's
+                        // Cursor pads on an empty write while a file does not (unspecified corner)
+                        let mut pl = g.payload();
+                        pl.len = pl.len.max(1);
+                        cur_len += pl.len as i64;
+                        ops.push(Op::HWrite(2, pl));
+                    }
+                    1 => {
+                        if !append || all_mem {
+                            let w = *g.rng.pick(&[Whence::Start, Whence::Current, Whence::End]);
+                            // bounded targets: a write past the end zero-fills the gap
+                            let mut off = *g.rng.pick(&[0, 1, -1, 3, -3, cur_len, -cur_len, cur_len + 2, -cur_len - 1, 5000, -5000, 70_000]);
+                            if w == Whence::Start {
+                                off = off.abs();
+                            }
+                            cur_len = cur_len.max(cur_len + off.max(0)).min(400_000);
+                            ops.push(Op::HSeek(2, w, off));
+                        }
+                    }
+                    _ => ops.push(Op::HFlush(2)),
+                }
+            }
+            ops.push(Op::HDrop(2));
+            // the new length is not tracked exactly; following scripts use an estimate only
+            if let Some(f) = files.iter_mut().find(|f| f.0 == p) {
+                f.1 = cur_len;
+            }
+        }
+    }
+    ops
 }
 
 /// open a reader on a file (or sometimes something else), seek/read a little, drop it
@@ -454,6 +843,11 @@ pub fn run_cfg(cfg: &RunCfg, trace: bool) -> RunOut {
         "C10" => crate::mon_overlay::run_c10(cfg, trace),
         "C03" | "C05" => crate::mon_invariant::run(cfg, trace),
         "C12" => crate::mon_err::run(cfg, trace),
+        "C04" => run_contract(cfg, trace, &mut contract_monitor),
+        "C14" => crate::mon_bytes::run_c14(cfg, trace),
+        "C19" => crate::mon_time::run_c19(cfg, trace),
+        "C20" => crate::mon_fault::run_c20(cfg, trace),
+        "C13" => crate::mon_panic::run_c13(cfg, trace),
         "C02" => crate::mon_twin::run_c02(cfg, trace),
         "C07" => crate::mon_twin::run_c07(cfg, trace),
         "C08" => crate::mon_overlay::run_c08(cfg, trace),
